@@ -290,7 +290,7 @@ Changed(snap, frames) ==
     UNION { { <<snap[j].id, snap[j].env[i].x>> : i \in {i \in 1..Len(snap[j].env) : snap[j].env[i].v # frames[j].env[i].v} } : j \in 1..Len(snap) }
 
 RECURSIVE Eval(_, _, _), EvalAll(_, _, _, _), Steps(_, _, _, _, _), Fields(_, _, _, _, _, _),
-          BindArgs(_, _, _, _, _, _, _, _), MStep(_, _), RunNested(_, _, _)
+          BindArgs(_, _, _, _, _, _, _, _), MStep(_, _), RunNested(_, _, _), PrintAll(_, _, _, _)
 
 \* apply element / member steps to a place, each after full dereference; -> [m, v |-> place or UB]
 Steps(prog, m, pl, steps, i) ==
@@ -480,6 +480,9 @@ MStep(prog, m) ==
                                   ELSE IF IsUB(r.v) THEN StopUB(r.m, r.v)
                                   ELSE IF ~IsScalar(r.v) THEN Stop(r.m, "stuck")
                                   ELSE [Next1(r.m) EXCEPT !.out = Append(@, r.v)]
+              \* one print! call with several arguments (rendered print!(e1, "\n", e2, "\n", ...)): the values appear in
+              \* argument order, exactly as if each had been printed by its own call
+              [] it.k = "PP" -> PrintAll(prog, m1, it.es, 1)
               [] it.k = "CALL" ->
                    LET g == FnIndex(prog, it.f)
                        en == BindArgs(prog, [m1 EXCEPT !.next = @ + 1], prog.fns[g].params, it.args, 1, <<>>, m1.next, {})
@@ -489,6 +492,13 @@ MStep(prog, m) ==
                       ELSE [en.m EXCEPT !.frames = Append(@, [id |-> m1.next, f |-> g, pc |-> 1, env |-> en.env, d |-> it.d, nested |-> FALSE,
                                                             snap |-> EnvsOf(en.m.frames, 1), reach |-> Closure(en.m, en.seeds, {})])]
               [] OTHER -> Stop(m1, "stuck")
+PrintAll(prog, m, es, i) ==
+    IF i > Len(es) THEN Next1(m)
+    ELSE LET r == Eval(prog, m, es[i])
+         IN IF r.m.status # "run" THEN r.m
+            ELSE IF IsUB(r.v) THEN StopUB(r.m, r.v)
+            ELSE IF ~IsScalar(r.v) THEN Stop(r.m, "stuck")
+            ELSE PrintAll(prog, [r.m EXCEPT !.out = Append(@, r.v)], es, i + 1)
 \* run until the frame pushed on top of `depth` frames has returned
 RunNested(prog, m, depth) == IF m.status # "run" \/ Len(m.frames) <= depth THEN m ELSE RunNested(prog, MStep(prog, m), depth)
 
